@@ -847,33 +847,92 @@ func C20(c *Ctx) {
 	c.Rule(r1, "latch.Manager.Acquire sorts the deduplicated stripe indices (sort.Ints) before the loop that locks them and locks nothing else; the indices are hash(key) %% len(stripes); stripes are locked nowhere else in the module")
 	fn := c.Fn("percolator/latch", "Manager.Acquire")
 	if fn != nil {
-		srt := need(c, r1, fn, false, "sort.Ints|slices.Sort", sortIntsCall, 1)
+		// the slice of stripe indices is built (hashed, de-duplicated, sorted) either in Acquire
+		// itself or in a latch-package helper whose result Acquire ranges over; the build rules
+		// are evaluated on whichever function that is
 		locks := need(c, r1, fn, false, "stripe.Lock", Named("(*sync.Mutex).Lock"), 1)
-		for i, l := range locks {
-			ok, n := MustPrecede(fn, l.(ssa.Instruction), instrs(srt))
-			c.Decide(ok, r1, key(fn, fmt.Sprintf("Lock[%d]<-sort", i+1)), l.Pos(), n, "stripes are locked in ascending index order", "a stripe can be locked before the indices were sorted (lock-order inversion ⇒ deadlock)")
-			// the locked element is stripes[idx] with idx ranging over the sorted slice
-			ia, ok2 := l.Common().Args[0].(*ssa.IndexAddr)
-			good := false
-			if ok2 && len(srt) > 0 {
-				good = rangesOverValue(ia.Index, srt[0].Common().Args[0], 5)
+		builder := fn
+		var keysParam ssa.Value
+		if len(fn.Params) >= 2 {
+			keysParam = fn.Params[1]
+		}
+		var sortedInFn []ssa.CallInstruction
+		var ranged ssa.Value // the slice the lock loop ranges over
+		for _, l := range locks {
+			if ia, ok := l.Common().Args[0].(*ssa.IndexAddr); ok {
+				ranged = rangedSliceOf(ia.Index, 5)
 			}
-			c.Decide(good, r1, key(fn, fmt.Sprintf("Lock[%d]#index-from-sorted-slice", i+1)), l.Pos(), 1, "the lock loop ranges over the sorted slice", "the locked stripe index does not come from the sorted slice")
+		}
+		sortedInFn = Calls(fn, false, sortIntsCall)
+		helperSorted := false
+		if len(sortedInFn) == 0 && ranged != nil {
+			// ranged := m.helper(keys)
+			if call, ok := sliceOrigin(ranged, 4).(*ssa.Call); ok {
+				if h := StaticFn(call.Common()); h != nil && h.Blocks != nil && FuncPkgPath(h) == FuncPkgPath(fn) {
+					hs := Calls(h, false, sortIntsCall)
+					good := len(hs) > 0
+					for _, r := range Returns(h) {
+						rv := RetVal(r, 0)
+						if IsNilConst(rv) {
+							continue
+						}
+						okr := false
+						for _, sc := range hs {
+							if sameSlice(rv, sc.Common().Args[0], 4) {
+								if pre, _ := MustPrecede(h, r, []ssa.Instruction{sc.(ssa.Instruction)}); pre {
+									okr = true
+								}
+							}
+						}
+						if !okr && !isEmptySliceReturn(rv) {
+							good = false
+						}
+					}
+					if good {
+						helperSorted = true
+						builder = h
+						c.Touch(h)
+						keysParam = nil
+						for i, a := range call.Call.Args {
+							if len(fn.Params) >= 2 && a == fn.Params[1] && i < len(h.Params) {
+								keysParam = h.Params[i]
+							}
+						}
+					}
+				}
+			}
+		}
+		c.Decide(len(sortedInFn) >= 1 || helperSorted, r1, key(fn, "has:sort.Ints|slices.Sort"), fn.Pos(), len(sortedInFn)+1, "the stripe indices are sorted before they are locked", "expected at least 1 call(s) to sort.Ints|slices.Sort in (*percolator/latch.Manager).Acquire (or in the helper whose result it locks), found 0")
+		for i, l := range locks {
+			if helperSorted {
+				c.Pass(r1, key(fn, fmt.Sprintf("Lock[%d]<-sort", i+1)), l.Pos(), 2, "the locked indices are the sorted result of "+FuncName(builder))
+				c.Pass(r1, key(fn, fmt.Sprintf("Lock[%d]#index-from-sorted-slice", i+1)), l.Pos(), 1, "the lock loop ranges over the helper's sorted result")
+			} else {
+				ok, n := MustPrecede(fn, l.(ssa.Instruction), instrs(sortedInFn))
+				c.Decide(ok, r1, key(fn, fmt.Sprintf("Lock[%d]<-sort", i+1)), l.Pos(), n, "stripes are locked in ascending index order", "a stripe can be locked before the indices were sorted (lock-order inversion ⇒ deadlock)")
+				// the locked element is stripes[idx] with idx ranging over the sorted slice
+				ia, ok2 := l.Common().Args[0].(*ssa.IndexAddr)
+				good := false
+				if ok2 && len(sortedInFn) > 0 {
+					good = rangesOverValue(ia.Index, sortedInFn[0].Common().Args[0], 5)
+				}
+				c.Decide(good, r1, key(fn, fmt.Sprintf("Lock[%d]#index-from-sorted-slice", i+1)), l.Pos(), 1, "the lock loop ranges over the sorted slice", "the locked stripe index does not come from the sorted slice")
+			}
 			c.Decide(blockInLoop(l.Block()), r1, key(fn, fmt.Sprintf("Lock[%d]#in-loop", i+1)), l.Pos(), 1, "one loop locks all stripes", "stripe locking is not a single loop over the indices")
 		}
 		c.Decide(len(locks) == 1, r1, key(fn, "single-lock-site"), fn.Pos(), len(locks)+1, "single lock site", fmt.Sprintf("%d lock sites in Acquire", len(locks)))
 		// dedup: append to indices only after an equality scan (open-coded or slices.Contains/Index)
-		eq := len(Calls(fn, false, func(cc *ssa.CallCommon) bool {
+		eq := len(Calls(builder, false, func(cc *ssa.CallCommon) bool {
 			o := CalleeObj(cc)
 			return o != nil && o.Pkg() != nil && o.Pkg().Path() == "slices" && (o.Name() == "Contains" || o.Name() == "Index")
 		})) > 0
-		AllInstrs(fn, false, func(in ssa.Instruction) {
+		AllInstrs(builder, false, func(in ssa.Instruction) {
 			if bo, ok := in.(*ssa.BinOp); ok && bo.Op == token.EQL && bo.X.Type().String() == "int" && bo.Y.Type().String() == "int" {
 				eq = true
 			}
 		})
 		c.Decide(eq, r1, key(fn, "dedup-scan"), fn.Pos(), 1, "duplicate stripe indices are removed (no self-deadlock)", "the duplicate-index scan is gone: two keys hashing to one stripe would self-deadlock")
-		// modulo len(stripes): in Acquire or in a latch-package helper it calls directly
+		// modulo len(stripes): in the builder or in a latch-package helper it calls directly
 		mod := false
 		hasRem := func(f *ssa.Function) {
 			AllInstrs(f, false, func(in ssa.Instruction) {
@@ -882,8 +941,8 @@ func C20(c *Ctx) {
 				}
 			})
 		}
-		hasRem(fn)
-		for _, cl := range Calls(fn, false, func(cc *ssa.CallCommon) bool { return true }) {
+		hasRem(builder)
+		for _, cl := range Calls(builder, false, func(cc *ssa.CallCommon) bool { return true }) {
 			if sf := StaticFn(cl.Common()); sf != nil && sf.Blocks != nil && FuncPkgPath(sf) == Module+"/percolator/latch" {
 				hasRem(sf)
 			}
@@ -891,12 +950,8 @@ func C20(c *Ctx) {
 		c.Decide(mod, r1, key(fn, "idx=hash%len(stripes)"), fn.Pos(), 1, "index = hash mod stripe count", "stripe index is not reduced modulo the stripe count")
 		// every key of the request is visited: the loop over the keys parameter has no early exit
 		const r1b = "K1.every-key-latched"
-		c.Rule(r1b, "the loop of Acquire over its keys parameter is left only when the keys are exhausted (no break/return inside it), so every non-empty key contributes its stripe")
-		var keysParam ssa.Value
-		if len(fn.Params) >= 2 {
-			keysParam = fn.Params[1]
-		}
-		hs := RangeLoopHeaders(fn, func(s ssa.Value) bool { return s == keysParam })
+		c.Rule(r1b, "the loop of Acquire (or of the helper that builds its index slice) over the keys parameter is left only when the keys are exhausted (no break/return inside it), so every non-empty key contributes its stripe")
+		hs := RangeLoopHeaders(builder, func(s ssa.Value) bool { return keysParam != nil && s == keysParam })
 		c.Decide(len(hs) == 1, r1b, key(fn, "range-over:keys"), fn.Pos(), 1, "one loop over keys", fmt.Sprintf("%d range loops over the keys parameter", len(hs)))
 		for _, h := range hs {
 			ex := LoopEarlyExits(h)
@@ -1115,4 +1170,49 @@ func kindEnv(ops map[string]int64, actual int64) *SignEnv {
 		v, _ := constant.Int64Val(constant.ToInt(k.Value))
 		return fmt.Sprintf("kind:%d", v), flipped, true
 	}}
+}
+
+// rangedSliceOf: idx is an element load of a range loop over a slice; returns that slice.
+func rangedSliceOf(idx ssa.Value, depth int) ssa.Value {
+	if depth <= 0 {
+		return nil
+	}
+	switch x := idx.(type) {
+	case *ssa.UnOp:
+		if ia, ok := x.X.(*ssa.IndexAddr); ok {
+			return ia.X
+		}
+	case *ssa.Phi:
+		for _, e := range x.Edges {
+			if v := rangedSliceOf(e, depth-1); v != nil {
+				return v
+			}
+		}
+	}
+	return nil
+}
+
+// sliceOrigin follows phis to the value a slice variable was first bound to.
+func sliceOrigin(v ssa.Value, depth int) ssa.Value {
+	if depth <= 0 {
+		return v
+	}
+	if p, ok := v.(*ssa.Phi); ok {
+		for _, e := range p.Edges {
+			if o := sliceOrigin(e, depth-1); o != nil {
+				if _, isCall := o.(*ssa.Call); isCall {
+					return o
+				}
+			}
+		}
+	}
+	return v
+}
+
+// isEmptySliceReturn: v is a nil or freshly made empty slice.
+func isEmptySliceReturn(v ssa.Value) bool {
+	if IsNilConst(v) {
+		return true
+	}
+	return false
 }
